@@ -15,8 +15,11 @@ import (
 	"os"
 	"sort"
 	"strconv"
+	"sync"
+	"sync/atomic"
 	"testing"
 	"testing/synctest"
+	"time"
 
 	"github.com/tsuna/gohbase/hrpc"
 	"github.com/tsuna/gohbase/internal/verifsim"
@@ -35,7 +38,10 @@ var c01ops = []string{"get", "put", "delete", "append", "increment", "checkandpu
 
 // c01do performs one API call of the given kind for key (batch: key and key2).
 func c01do(c *client, op, table string, key, key2 []byte) error {
-	ctx := context.Background()
+	return c01doCtx(context.Background(), c, op, table, key, key2)
+}
+
+func c01doCtx(ctx context.Context, c *client, op, table string, key, key2 []byte) error {
 	vals := map[string]map[string][]byte{"f": {"q": []byte("v")}}
 	switch op {
 	case "get":
@@ -186,8 +192,8 @@ func TestVerifC01(t *testing.T) {
 				splits = append(splits, c01bytes(s))
 			}
 			regs := w.cl.CreateTable("t", splits, hosts)
-			w.cl.CreateTable("tt", [][]byte{{','}}, hosts[1:])  // same-prefixed sibling
-			w.cl.CreateTable("n:t", [][]byte{{0}}, hosts[2:])   // namespaced sibling
+			w.cl.CreateTable("tt", [][]byte{{','}}, hosts[1:])             // same-prefixed sibling
+			w.cl.CreateTable("n:t", [][]byte{{0}}, hosts[2:])              // namespaced sibling
 			w.cl.CreateTable("hbase:metadata", [][]byte{{'m'}}, hosts[:2]) // user tables whose names extend / are extended by the catalog's
 			w.cl.CreateTable("hbase:met", nil, hosts[1:])
 			w.c = newSimClient(w.cl, RpcQueueSize(1+ci%3))
@@ -301,6 +307,132 @@ func TestVerifC01(t *testing.T) {
 			w.flush(name)
 			rep.Distinct += w.n
 		})
+	}
+	// ---- H: a hole in hbase:meta (the region after R has no row at the moment). A key equal to R's stop key - the first key
+	// that is NOT R's - has no region: "a key outside every known range is resolved through hbase:meta instead of being
+	// sent to a neighbouring region". The request waits (here: until its deadline); it is never addressed to R.
+	for hole := 1; hole <= 2; hole++ {
+		for oi, op := range c01ops {
+			for _, warm := range []bool{false, true} {
+				name := fmt.Sprintf("hole-in-meta/region=%d/%s/neighbour-known=%v", hole, op, warm)
+				verifsim.Bubble(t, func(t *testing.T) {
+					tr := &verifsim.Trace{}
+					cl := verifsim.NewCluster(tr)
+					for _, h := range hosts {
+						cl.AddServer(h)
+					}
+					regs := cl.CreateTable("t", [][]byte{[]byte("g"), []byte("p")}, hosts)
+					c := newSimClient(cl, RpcQueueSize(1+oi%3))
+					if warm {
+						c01do(c, "get", "t", append(append([]byte{}, regs[hole-1].Start...), 'x'), nil)
+						synctest.Wait()
+					}
+					cl.Lock()
+					regs[hole].Online = false
+					cl.Unlock()
+					ctx, cancel := context.WithTimeout(context.Background(), 3*time.Second)
+					defer cancel()
+					key := regs[hole].Start
+					err := c01doCtx(ctx, c, op, "t", key, append(append([]byte{}, key...), 0))
+					synctest.Wait()
+					if err == nil {
+						rep.bad("routed-to-wrong-region", "%s: %s for key %q succeeded although no region owns the key at the moment", name, op, key)
+					}
+					for _, e := range tr.Events() {
+						if e["ev"] != "req" || e["probe"] == true || e["method"] == "Scan" {
+							continue
+						}
+						for _, r := range regs {
+							if e["region"] == string(r.Name) && r != regs[hole] && (e["row"] == string(key) || e["method"] == "Multi") {
+								rep.bad("routed-to-wrong-region", "%s: a %v (row %q) was sent to %v addressed to region %q while the only keys in use have no region "+
+									"(hbase:meta has a hole there)", name, e["method"], e["row"], e["addr"], r.Name)
+							}
+						}
+					}
+					cl.Lock()
+					regs[hole].Online = true
+					cl.Unlock()
+					time.Sleep(time.Minute)
+					c.Close()
+					time.Sleep(time.Minute)
+					synctest.Wait()
+					rep.Scenarios++
+					rep.Distinct++
+				})
+			}
+		}
+	}
+	// ---- D (real time, outside a bubble: the establisher is held at the connection cache's lock): the layout changes under a
+	// request. A region known to the client has been split; the first request learns it ("not serving"), the region is looked
+	// up again and hbase:meta names the daughter. From the moment the location cache holds the daughter, requests that were
+	// waiting for the parent are routed from the cache: none of them may still be addressed to the parent, whose range is no
+	// region's any more.
+	for round := 0; round < 3; round++ {
+		func() {
+			name := fmt.Sprintf("layout-change/region-split-while-requests-wait/%d", round)
+			tr := &verifsim.Trace{}
+			cl := verifsim.NewCluster(tr)
+			for _, h := range hosts {
+				cl.AddServer(h)
+			}
+			parent := cl.CreateTable("t", nil, hosts[:1])[0]
+			c := newSimClient(cl, RpcQueueSize(1+round))
+			defer c.Close()
+			c01do(c, "get", "t", []byte("a"), nil)
+			cl.Split(parent, []byte("m"), hosts[0], hosts[1])
+			hold := make(chan struct{})
+			var held atomic.Bool
+			cl.Lock()
+			cl.Rules = append(cl.Rules, func(_ *verifsim.Cluster, rs *verifsim.RS, sc *verifsim.ServerConn, req *verifsim.Request, rn []byte) *verifsim.Directive {
+				if req.Method == "Scan" && bytes.HasPrefix(rn, []byte("hbase:meta,")) && held.CompareAndSwap(false, true) {
+					return &verifsim.Directive{Hold: hold}
+				}
+				return nil
+			})
+			cl.Unlock()
+			var wg sync.WaitGroup
+			call := func(op string, key string) {
+				wg.Add(1)
+				go func() {
+					defer wg.Done()
+					c01do(c, op, "t", []byte(key), []byte(key))
+				}()
+			}
+			call("get", "a")
+			for i := 0; i < 500 && !held.Load(); i++ {
+				time.Sleep(10 * time.Millisecond)
+			}
+			if !held.Load() {
+				close(hold)
+				rep.bad("harness:c01-split", "%s: the lookup after the split was never made", name)
+				return
+			}
+			for i, op := range []string{"get", "put", "batch", "increment"} {
+				call(op, string(rune('b'+i)))
+			}
+			time.Sleep(100 * time.Millisecond) // they wait for the parent to be re-established
+			c.clients.m.Lock()
+			mark := len(tr.Events())
+			close(hold)
+			time.Sleep(300 * time.Millisecond)
+			c.clients.m.Unlock()
+			done := make(chan struct{})
+			go func() { wg.Wait(); close(done) }()
+			select {
+			case <-done:
+			case <-time.After(20 * time.Second):
+				rep.bad("request-stranded-after-a-split", "%s: requests have not returned 20 s after hbase:meta answered", name)
+			}
+			for _, e := range tr.Events()[mark:] {
+				if e["ev"] == "req" && e["region"] == string(parent.Name) && e["probe"] != true {
+					rep.bad("request-addressed-to-a-replaced-region", "%s: after hbase:meta had named the daughter region, a %v for row %q was still sent to %v "+
+						"addressed to the split parent %q", name, e["method"], e["row"], e["addr"], parent.Name)
+					break
+				}
+			}
+			rep.Scenarios++
+			rep.Distinct++
+		}()
 	}
 	if len(cases) > 0 {
 		rep.Samples = append(rep.Samples, map[string]any{"layout_splits": cases[len(cases)/2].Splits, "keys": len(cases[0].Owners)})
